@@ -1,6 +1,6 @@
 \* behaviour generation (history part of the state): used with -simulate for deep random behaviours and exhaustively to a small depth
 CONSTANTS Catalogs = {1, 2, 3}  Limits = {0, 1, 2, 3, 4, 5}  Daemons = {0, 1}  Batches = {1, 2, 3, 4, 5, 6, 7}  Laters = {0, 1, 2, 3}
-CONSTANTS MaxRounds = 3  MaxClaims = 3  MaxSteps = 12  Resyncs = {FALSE, TRUE}  EphForms = {1, 2, 3, 4, 5, 6, 7}  StForms = {0, 1, 2}
+CONSTANTS MaxRounds = 3  MaxClaims = 3  MaxSteps = 12  AllowForeign = TRUE  Resyncs = {FALSE, TRUE}  EphForms = {1, 2, 3, 4, 5, 6, 7}  StForms = {0, 1, 2}
 CONSTANTS W_NoSyncGate = FALSE  W_SubMin = FALSE  W_SubDominating = FALSE  W_StartupBlocks = FALSE  W_CountMarked = FALSE  W_ZeroSkips = FALSE
           W_NoZeroFallback = FALSE  W_DaemonTwice = FALSE  W_SyncBeforeBatch = FALSE  C_NodesPerPass = FALSE  C_OverrideBase = FALSE
 SPECIFICATION Spec
